@@ -28,10 +28,12 @@ def model_runs(ck):
              ("Chains K=2 Steps=2 W=2, loader draws 2 from the parent stream first", (2, 2, 2, False, False, 2, False), "pass"),
              ("Chains K=1 Steps=3, loader draws 2 first (single chain continues on the parent stream)", (1, 3, 1, False, False, 2, False), "pass"),
              ("DEV one shared stream", (2, 2, 2, True, False, 0, False), "fail"), ("DEV streams per worker slot", (3, 2, 2, False, True, 0, False), "fail"),
-             ("DEV loader draws concurrently with a single chain", (1, 2, 1, False, False, 2, True), "fail")]
+             ("DEV loader draws concurrently with a single chain", (1, 2, 1, False, False, 2, True), "fail"),
+             ("DEV chains do not clear the process-global memo tables (3 chains, 3 workers: a finished worker takes a queued chain)", (3, 1, 3, False, False, 0, False, False), "fail")]
     jobs = [dict(job="c18_%d" % i, module="Chains", workers=2, timeout=900,
                  cfg=tlc.cfg_text(constants={"K": a[0], "Steps": a[1], "W": a[2], "SharedStream": tlc.tla_bool(a[3]), "StreamPerWorker": tlc.tla_bool(a[4]),
-                                             "PreDraws": a[5], "LazyLoad": tlc.tla_bool(a[6])},
+                                             "PreDraws": a[5], "LazyLoad": tlc.tla_bool(a[6]),
+                                             "ColdStartPerChain": tlc.tla_bool(a[7] if len(a) > 7 else True)},
                                   invariants=["ScheduleIndependence", "KeyedByChain", "NoSharedDraw"])) for i, (_, a, _) in enumerate(cases)]
     for (label, _, expect), r in zip(cases, tlc.run_many(jobs)):
         ck.add_tlc(label, r, must_fail=(expect == "fail"))
@@ -80,6 +82,96 @@ def write_input_assign(path):
         fh.write("\n".join(rows) + "\n")
     with open(path + ".clusters.tsv", "w") as fh:
         fh.write("\n".join(crows) + "\n")
+
+
+def write_input_branching(path):
+    """12 mutations x 3 samples at depth 1000: a clonal cluster with three sibling subclones, so that sampled trees
+    branch and the convolution caches are filled with many-children entries."""
+    import numpy as np
+    rs = np.random.default_rng(1)
+    ccfs = [(1.0, 1.0, 1.0), (0.5, 0.1, 0.3), (0.1, 0.5, 0.2), (0.3, 0.3, 0.4)]
+    rows = ["mutation_id\tsample_id\tref_counts\talt_counts\tmajor_cn\tminor_cn\tnormal_cn"]
+    for m in range(12):
+        for s in range(3):
+            b = rs.binomial(1000, ccfs[m % 4][s] / 2)
+            rows.append("m%d\tS%d\t%d\t%d\t1\t1\t2" % (m, s, 1000 - b, b))
+    with open(path, "w") as fh:
+        fh.write("\n".join(rows) + "\n")
+
+
+def launch_shared(label, workdir, in_file, seed, shared, iters):
+    """3 chains; with `shared` all pool workers but the first are slow to come up, so that the first worker process
+    executes the chains one after the other (a schedule the executor permits)."""
+    out = os.path.join(workdir, label + ".pkl.gz")
+    marks = os.path.join(workdir, "marks_" + label)
+    os.makedirs(marks, exist_ok=True)
+    e = dict(os.environ)
+    e.update(PYTHONHASHSEED="0", PHYCLONE_VERIF="1", PCV_CHAIN_PIDS=marks, NUMBA_CACHE_DIR=os.path.join(env.BUILD_DIR, "numba_cache"),
+             PYTHONPATH=os.pathsep.join([os.path.join(env.VERIF, "pcv", "sitecustom"), env.REPO]))
+    e.pop("PCV_CHAIN_DELAYS", None)
+    if shared:
+        e["PCV_WORKER_START_DELAY"] = "%s:%d" % (marks, shared)
+    cmd = [sys.executable, "-c", "from phyclone.cli import main; main()", "run", "-i", in_file, "-o", out, "--seed", str(seed), "-n", str(iters), "-b", "5",
+           "--num-chains", "3", "--num-particles", "20", "--precision", "400", "--print-freq", "100000"]
+    p = subprocess.Popen(cmd, cwd=workdir, env=e, stdout=subprocess.PIPE, stderr=subprocess.STDOUT)
+    return {"label": label, "proc": p, "out": out, "hashseed": 0, "one_core": False, "delays": ("workers 2,3 start %ds late" % shared) if shared else None, "marks": marks}
+
+
+def chain_pids(run):
+    pids = {}
+    for f in os.listdir(run["marks"]):
+        if f.startswith("chain_"):
+            _, c, _, pid = f.split("_")
+            pids[int(c)] = int(pid)
+    return pids
+
+
+LOADER_SCRIPT = """
+import sys, json, io, contextlib
+import numpy as np
+from phyclone.data.pyclone import load_data
+out = []
+for data_file, cluster_file in json.loads(sys.argv[1]):
+    with contextlib.redirect_stdout(io.StringIO()):
+        data, samples = load_data(data_file, np.random.default_rng(11), 0.002, 0.3, True, cluster_file=cluster_file, density="binomial", grid_size=5, outlier_prob=0.0001, precision=400)
+    out.append([[dp.name, float(dp.outlier_prob).hex(), float(dp.outlier_prob_not).hex(), [float(x).hex() for x in dp.value.ravel()[:4]]] for dp in data])
+print("LOADED " + json.dumps(out))
+"""
+
+
+def loader_hashseeds(ck, workdir, thorough):
+    """--assign-loss-prob on clustered inputs whose permutation test is borderline (exact p-value 1/99 against the 0.01
+    threshold; string cluster ids and chromosome names): the loaded data must not depend on PYTHONHASHSEED."""
+    from .. import lossprob
+    d = os.path.join(workdir, "loader")
+    os.makedirs(d, exist_ok=True)
+    insts = [lossprob.borderline_instance(0)] + lossprob.borderline_instances3(1)
+    files = []
+    for inst in insts:
+        inst2 = dict(inst, id=100 + inst["id"])
+        files.append(list(lossprob.write_files(inst2, d, 0)))
+    seeds = (0, 1, 2, 3, 4, 5, 6, 7) if thorough else (0, 1, 2, 3, 4, 5)
+    procs = []
+    for hs in seeds:
+        e = dict(os.environ, PYTHONHASHSEED=str(hs), PYTHONPATH=env.REPO, NUMBA_CACHE_DIR=os.path.join(env.BUILD_DIR, "numba_cache"))
+        procs.append((hs, subprocess.Popen([sys.executable, "-c", LOADER_SCRIPT, json.dumps(files)], cwd=d, env=e, stdout=subprocess.PIPE, stderr=subprocess.STDOUT)))
+    outs = {}
+    for hs, p in procs:
+        txt = p.communicate(timeout=900)[0].decode("utf-8", "replace")
+        line = [l for l in txt.splitlines() if l.startswith("LOADED ")]
+        if p.returncode != 0 or not line:
+            raise RuntimeError("loader subprocess failed (hash seed %s): %s" % (hs, txt[-800:]))
+        outs[hs] = json.loads(line[0][7:])
+    base = outs[seeds[0]]
+    for hs in seeds[1:]:
+        ck.evaluations += len(base)
+        for k, (a, b) in enumerate(zip(base, outs[hs])):
+            if a != b:
+                ck.violation("C18|loaded_data_differs|hash_seed", "the same clustered input loads with different outlier priors under PYTHONHASHSEED %s and %s (--assign-loss-prob, seed fixed): %s vs %s" % (
+                    seeds[0], hs, [(x[0], x[1]) for x in a], [(x[0], x[1]) for x in b]), {"instance": k, "hashseeds": [seeds[0], hs]})
+                break
+        ck.nontrivial("loader|hash seed %s -> %s" % (seeds[0], hs))
+    ck.traces_validated += len(seeds)
 
 
 def launch(label, workdir, in_file, seed, chains, hashseed, one_core=False, delays=None, extra=()):
@@ -162,14 +254,28 @@ def run(corrupt=None):
            for l, kw in (("h0_delay_chain1", dict(hashseed=0, delays="0:0,1:5")), ("h5_onecore_delay_chain0", dict(hashseed=5, one_core=True, delays="0:5,1:0")))]
     grp1 = [launch("assign1_%s" % l, workdir, in_assign, seed + 8, 1, extra=("--assign-loss-prob", "--high-loss-prob", "0.3"), **kw)
             for l, kw in (("h0", dict(hashseed=0)), ("h31_onecore", dict(hashseed=31, one_core=True)))]
+    # chains executed one after the other by ONE worker process vs each in its own: process-global state (memo tables)
+    # must not leak from one chain into the next
+    in_branch = os.path.join(workdir, "in_branch.tsv")
+    write_input_branching(in_branch)
+    iters = 150
+    grp_sh = [launch_shared("own_process_each", workdir, in_branch, 3, 0, iters), launch_shared("one_worker_runs_all", workdir, in_branch, 3, 80, iters)]
+    loader_hashseeds(ck, workdir, thorough)
     assign_group = [collect(r) for r in grp]
     assign_single = [collect(r) for r in grp1]
+    shared_group = [collect(r) for r in grp_sh]
+    for r in shared_group:
+        r["pids"] = chain_pids(r)
+    n_proc = [len(set(r["pids"].values())) for r in shared_group]
+    ck.extra["worker_processes_used"] = {r["label"]: n for r, n in zip(shared_group, n_proc)}
+    if not (n_proc[0] == 3 and n_proc[1] < 3):
+        ck.note("the worker start delays did not produce the intended schedules (processes used: %s): coverage of chains sharing a worker process reduced in this run" % n_proc)
     if thorough:
         for gi, (prop, op) in enumerate((("bootstrap", "0.3"), ("fully-adapted", "0"), ("semi-adapted", "0.3"))):
             grp = [launch("g%d_%s" % (gi, l), workdir, in_file, seed + 1 + gi, 3, extra=("--proposal", prop, "--outlier-prob", op), **kw)
                    for l, kw in (("h0", dict(hashseed=0)), ("h7_onecore", dict(hashseed=7, one_core=True)), ("h3_delayed", dict(hashseed=3, delays="0:7,1:3,2:0")))]
             extra_groups.append([collect(r) for r in grp])
-    for grp, what in [(runs, "2 chains")] + [(singles, "1 chain")] + [(assign_group, "2 chains, --assign-loss-prob"), (assign_single, "1 chain, --assign-loss-prob")] + [(g, "3 chains") for g in extra_groups]:
+    for grp, what in [(runs, "2 chains")] + [(singles, "1 chain")] + [(assign_group, "2 chains, --assign-loss-prob"), (assign_single, "1 chain, --assign-loss-prob"), (shared_group, "3 chains, one worker process runs them all")] + [(g, "3 chains") for g in extra_groups]:
         for r in grp:
             if r["rc"] != 0 or "chains" not in r:
                 raise RuntimeError("phyclone run failed in the harness (%s): %s" % (r["label"], r["stdout_tail"][-800:]))
@@ -178,11 +284,13 @@ def run(corrupt=None):
             grp[1]["chains"][0][2] = ("x",) + tuple(grp[1]["chains"][0][2][1:])
         for other in grp[1:]:
             pert = "hash seed %s -> %s%s%s" % (base["hashseed"], other["hashseed"], ", one core" if other["one_core"] else "", ", start delays" if other["delays"] else "")
+            if "marks" in other:
+                pert = "each chain in its own worker process -> one worker process executes several chains"
             compare(ck, base, other, pert)
             ck.nontrivial("%s|%s" % (what, pert))
         orders = {tuple(r["order"]) for r in grp}
         ck.extra.setdefault("completion_orders", {})[what] = sorted(list(o) for o in orders)
-        if not what.startswith("1 chain") and len(orders) < 2:
+        if not what.startswith("1 chain") and not what.startswith("3 chains, one worker") and len(orders) < 2:
             ck.note("the perturbations did not change the completion order for %s (orders %s): scheduling coverage reduced in this run" % (what, sorted(orders)))
         ck.traces_validated += len(grp)
     ck.sample({"run": runs[0]["label"], "completion_order": runs[0]["order"], "chain0_first_entries": runs[0]["chains"][0][:3]})
